@@ -201,8 +201,14 @@ class SourceToSourceFileImportsTransformation(SourceToSourceTransformationBase):
                block.input.endpos.lineno),
               block )
             for block in self.import_blocks
-            if _last_lineno(block.input) < max_lineno
-            or not block.input.text.joined.strip() ]
+            if (_last_lineno(block.input) < max_lineno
+                or not block.input.text.joined.strip())
+            # A __future__ import only joins a block that already has one
+            # ('import __future__' is an ordinary import, which may come
+            # after code).
+            and (imp.split.module_name != '__future__'
+                 or any(oimp.split.module_name == '__future__'
+                        for oimp in block.importset.imports)) ]
         if not annotated_blocks:
             raise NoImportBlockError()
         # Sort by the annotation only: blocks themselves are not orderable, and
